@@ -396,6 +396,33 @@ fn run(t: &[&str]) -> String {
                 None => format!("none{}", rec),
             }
         }
+        // rawlog <opts> <img> [chunkname:hex ...] [icc:hex]: RawImage API with oracle records
+        "rawlog" => {
+            let o = parse_opts(t[1]);
+            let img = parse_img(t[2]);
+            let extras: Vec<String> = t[3..].iter().map(|x| x.to_string()).collect();
+            let (r, rec) = with_log(None, || {
+                match RawImage::new(img.ihdr.width, img.ihdr.height, img.ihdr.color_type.clone(), img.ihdr.bit_depth, img.data.clone()) {
+                    Err(e) => format!("err {}", err_kind(&e)),
+                    Ok(mut r) => {
+                        for extra in &extras {
+                            let (n, d) = extra.split_once(':').unwrap();
+                            if n == "icc" {
+                                r.add_icc_profile(&unhex(d));
+                            } else {
+                                let nb = unhex(n);
+                                r.add_png_chunk([nb[0], nb[1], nb[2], nb[3]], unhex(d));
+                            }
+                        }
+                        match r.create_optimized_png(&o) {
+                            Ok(b) => format!("ok {}", hex(&b)),
+                            Err(e) => format!("err {}", err_kind(&e)),
+                        }
+                    }
+                }
+            });
+            format!("{}{}", r, rec)
+        }
         // raw <opts> <img> [chunkname:hex ...] [icc:hex]
         "raw" => {
             let o = parse_opts(t[1]);
